@@ -62,19 +62,25 @@ class Ctx:
         self.nfresh = 0
         self.inputs = {}       # name -> z3 term (registered harness inputs)
         self.nanflags = {}     # name -> z3 Bool
+        self.infsigns = {}     # name -> z3 Int sign
         self.trace = []        # human-readable decisions (for samples)
         self.findings = []
         self.notes = {}
 
     # ---- variables -------------------------------------------------------
-    def real(self, name, nan=False):
+    def real(self, name, nan=False, inf=False):
         e = z3.Real(name)
         self.inputs[name] = e
+        n = False
+        i = None
         if nan:
             n = z3.Bool(name + '?nan')
             self.nanflags[name] = n
-            return SymReal(e, n)
-        return SymReal(e)
+        if inf:
+            i = z3.Int(name + '?inf')
+            self.infsigns[name] = i
+            self.solver.add(i >= -1, i <= 1)
+        return SymReal(e, n, i)
 
     def int(self, name, lo=None, hi=None):
         e = z3.Int(name)
@@ -223,6 +229,10 @@ class Ctx:
         out = {}
         for k, e in self.inputs.items():
             out[k] = _pyval(model.eval(e, model_completion=True))
+        for k, e in self.infsigns.items():
+            sg = model.eval(e, model_completion=True).as_long()
+            if sg:
+                out[k] = float('inf') * sg
         for k, e in self.nanflags.items():
             if z3.is_true(model.eval(e, model_completion=True)):
                 out[k] = float('nan')
@@ -258,6 +268,10 @@ def explore(fn, max_paths=200000, max_seconds=None, lazy=False,
     findings = []
     stats = stats or Stats()
     t0 = time.time()
+    import os
+    cap = float(os.environ.get('VERIF_CASE_SECONDS', '0') or 0)
+    if cap and (max_seconds is None or max_seconds > cap):
+        max_seconds = cap
     while True:
         ctx = Ctx(stack, stats, lazy=lazy, timeout_ms=timeout_ms)
         Ctx.cur = ctx
@@ -399,16 +413,22 @@ class SymBool:
 
 
 class SymReal:
-    __slots__ = ('e', 'nan')
+    __slots__ = ('e', 'nan', 'inf')
 
-    def __init__(self, e, nan=False):
+    def __init__(self, e, nan=False, inf=None):
         self.e = e
         self.nan = nan
+        # None, or a z3 Int term in {-1, 0, +1}: sign of an infinite value
+        # (0 = finite).  Infinite-capable values support comparisons and
+        # isfinite/isnan only; arithmetic on them leaves the model.
+        self.inf = inf
 
     # -- arithmetic
     def _bin(self, o, f, rev=False):
         if isinstance(o, np.ndarray) and o.ndim > 0:
             return NotImplemented
+        if self.inf is not None or getattr(o, 'inf', None) is not None:
+            raise OutOfModel('arithmetic on a possibly infinite value')
         l = _lift(o)
         if l is None:
             return NotImplemented
@@ -474,12 +494,20 @@ class SymReal:
     def _cmp(self, o, f, ne=False):
         if isinstance(o, np.ndarray) and o.ndim > 0:
             return NotImplemented
+        oinf = getattr(o, 'inf', None)
+        if isinstance(o, (float, np.floating)) and math.isinf(o):
+            oinf = z3.IntVal(1 if o > 0 else -1)
+            o = 0.0
         l = _lift(o)
         if l is None:
             return NotImplemented
         oe, on = l
         anynan = _or(self.nan, on)
         c = f(self.e, oe)
+        if self.inf is not None or oinf is not None:
+            sa = self.inf if self.inf is not None else z3.IntVal(0)
+            sb = oinf if oinf is not None else z3.IntVal(0)
+            c = z3.If(z3.And(sa == 0, sb == 0), c, f(sa, sb))
         if anynan is False:
             return SymBool(c)
         if ne:
@@ -496,6 +524,17 @@ class SymReal:
 
     def isnan(self):
         return SymBool(_nanz(self.nan))
+
+    def isinf(self):
+        if self.inf is None:
+            return SymBool(z3.BoolVal(False))
+        return SymBool(z3.And(z3.Not(_nanz(self.nan)), self.inf != 0))
+
+    def isfinite(self):
+        c = z3.Not(_nanz(self.nan))
+        if self.inf is not None:
+            c = z3.And(c, self.inf == 0)
+        return SymBool(c)
 
     def sqrt(self):
         ctx = Ctx.cur
@@ -646,10 +685,11 @@ class SymArray(np.ndarray):
         super().__setitem__(key, val)
 
 
-def symarray(ctx, name, shape, nan=False):
+def symarray(ctx, name, shape, nan=False, inf=False):
     a = np.empty(shape, dtype=object)
     for idx in np.ndindex(*shape):
-        a[idx] = ctx.real(name + '_' + '_'.join(map(str, idx)), nan=nan)
+        a[idx] = ctx.real(name + '_' + '_'.join(map(str, idx)), nan=nan,
+                          inf=inf)
     return a.view(SymArray)
 
 
@@ -673,6 +713,11 @@ def term(x):
 
 def nanflag(x):
     return _nanz(_lift(x)[1])
+
+
+def infsign(x):
+    i = getattr(x, 'inf', None)
+    return z3.IntVal(0) if i is None else i
 
 
 def same(a, b):
